@@ -24,7 +24,7 @@ def write_evidence(root, prop, tier, seed, wall, n_obl, n_dis, samples, function
     trusted.append("pyvc symbolic executor (proxy execution of the re-compiled real AST; self-checked by native cross-check runs of every contract)")
     trusted += [MODE_TEXT[m] for m in modes if m in MODE_TEXT]
     for u in (extra or {}).get("uf", []):
-        trusted.append(f"axioms[{u}]: {FAMILIES.get(u, 'uninterpreted')}")
+        trusted.append(f"axioms[{u}]: {FAMILIES.get(u, 'uninterpreted result symbol of a callee replaced by its contract stub (see callees_replaced_by_contract_stubs)')}")
     for u in (extra or {}).get("shims", []):
         trusted.append(f"library contract: {u}")
     for l in lemmas:
@@ -45,6 +45,7 @@ def write_evidence(root, prop, tier, seed, wall, n_obl, n_dis, samples, function
             "bounded_items": bounded,
             "known_findings_matched": known,
             "lemmas_supplied_by_contracts": lemmas,
+            "callees_replaced_by_contract_stubs": (extra or {}).get("stubbed", []),
             "undecided": [list(map(str, u)) for u in undecided],
             "explanation": "each obligation is a named `ensure` of a sidecar contract; it is discharged iff for every feasible path of the real function bodies the VC axioms/\\pc ==> goal is unsat-checked, the path is non-vacuous (cover sat) and at least one path reaches it",
         },
